@@ -22,6 +22,9 @@ CLAIMED = {
  'C20': dict(technique='Coq proof over guard functions translated from the raise/assert statements of 37 entry points + exhaustive execution of the (entry point x argument class) table',
              text='For each modelled entry point the boolean guard is regenerated from the source (explicit raise/assert statements and the implicit shape-unpack guard) and proved equal to the negation of the documented domain predicate for every descriptor (all shapes, option strings, dtypes); in-domain boundary shapes (1x1, 1xn, nx1) are proved accepted. The full table of ~400 cells is executed and compared with the domain table and with the guard evaluated in Coq.',
              note='Trusted: Coq kernel, qtrans guard translator (condition forms; fail-closed), my reading of the documented domains. Implicit rejections raised inside NumPy are observed, not modelled. Known findings: unknown Schur option strings, PSF larger than the image.', ref='7/C20'),
+ 'C14': dict(technique='Coq proof over the field-write model translated from solver.py (induction over call histories) + exhaustive dynamic history / hash comparison',
+             text='The net effect of every method of every solver class on the object fields is regenerated from the self.<attr> = ... statements (including try/finally) and proved to be the identity for every entry state and problem shape; hence, by induction over histories of any length, a reused object returns what a fresh one returns and repeating a call repeats the result. All histories of length <= 2 (3 thorough) over pools of problems of different shapes are executed for 11 class/configuration pairs and compared bit-for-bit with fresh objects; 46 public functions are checked for argument mutation and repeatability; both import styles are compared in fresh interpreters.',
+             note='Trusted: Coq kernel, qtrans field-write translator (fail-closed on writes in loops/handlers/unmodelled conditions), the assumption that methods communicate only through fields and the global generator. Aliasing/mutation of caller arrays is observed by hashing, not proved. Known finding: Hess_QR_ggivens works in place.', ref='7/C14'),
 }
 checks = []
 for pid, c in sorted(CLAIMED.items()):
